@@ -2,6 +2,9 @@
 import BeyondVerif.NumFloat
 import BeyondVerif.Generated.LocalF
 import BeyondVerif.Generated.DkepF
+import BeyondVerif.Generated.AccelSrcF
+import BeyondVerif.Generated.KepPlaneF
+import BeyondVerif.Generated.AccelLoopSrc
 namespace BeyondVerif.F
 open BeyondVerif.NumFloat
 set_option linter.unusedVariables false
@@ -42,6 +45,11 @@ def accelOfDv (dv : V3) (duration : R) : V3 := V3.divS dv duration
 /-- `KeplerianImpulsiveMan.dv`: `to_tnw(orb).T @ [dv_t, 0, dv_w]` -/
 def kepManDv (pos vel : V3) (dv_t dv_w : R) : V3 := (toTnw pos vel).tMulVec ⟨dv_t, 0, dv_w⟩
 
+/-- `KeplerianContinuousMan.accel`: `self._accel = dkep2dv(orb, …) / self.duration.total_seconds()`, then the projection of
+`ContinuousMan.accel` with the forced frame TNW -/
+def kepContAccel (pos vel : V3) (mu a i v da di dOmega duration : R) : V3 :=
+  manProject Tag.tnw pos vel (accelOfDv ⟨dkepDvT mu a i v da di dOmega, 0, dkepDvW mu a i v da di dOmega⟩ duration)
+
 /-- state = (position, velocity) -/
 structure St where
   p : V3
@@ -59,5 +67,19 @@ def frameTo (t : Tag) (ref x : St) : St :=
 def frameFrom (t : Tag) (ref y : St) : St :=
   let m := toLocal t ref.p ref.v
   ⟨V3.add (m.tMulVec y.p) ref.p, V3.add (m.tMulVec y.v) ref.v⟩
+
+/-- a maneuver of `orbit.maneuvers` as one evaluation of `_accel` sees it: `on` = `isinstance(man, ContinuousMan)
+and man.check(orb.date)`, its frame tag and stated acceleration -/
+structure ContMan where
+  on : Bool
+  tag : Tag
+  acc : V3
+
+/-- `KeplerNum._accel(orb)[3:]` for the attracting bodies `(µ, position at orb.date)` and the maneuvers of the
+orbit: the regenerated loop program run by the fixed interpreter (`none`: the program reads an unbound loop variable) -/
+def accelOf (pos vel : V3) (bodies : List (R × V3)) (mans : List ContMan) : Option V3 :=
+  BeyondVerif.AccelLoop.run V3.add (fun b => gravTerm b.1 b.2 pos)
+    (fun m => if m.on then some (manProject m.tag pos vel m.acc) else none) bodies mans V3.zero
+    BeyondVerif.Generated.AccelLoopSrc.accelProg
 
 end BeyondVerif.F
